@@ -34,10 +34,13 @@ POOLS = {
     # labels that are string-suffixes of each other: whole labels must be compared
     "suffixy": ["a", "ba", "a-b", "com"],
     # many sibling labels under one parent / long label chains
+    # label kinds: one letter, hyphen, underscore, leading digit, 63 characters,
+    # non-BMP and combining-mark labels (all round-trip through the idna codec)
+    "kinds": ["x", "a-b", "a_b", "9lives", "a" * 63, "\U0001F34A", "\u00e9\u0301", "\U00020BB7\u91ce\u5bb6"],
     "wide": ["a", "b", "c", "d", "e", "f", "g", "h", "i"],
     "deep": ["a", "b"],
 }
-POOL_ORDER = ["ab", "abc", "abcd", "real", "idn", "edge", "digits", "suffixy", "wide", "deep"]
+POOL_ORDER = ["ab", "abc", "abcd", "real", "idn", "edge", "digits", "suffixy", "kinds", "wide", "deep"]
 URL_FORMS = ["http", "bare", "port", "schemeless", "auth", "split", "https_q", "auth_noport", "user_only", "upper_scheme", "query_only", "frag_only", "bare_port", "bare_query", "bare_user", "bare_dslash", "bare_q_url"]
 NONSTRING = ["none", "int", "list", "bytes"]
 FAULT_KINDS = ["iter_cancel", "add_raises"]
@@ -211,10 +214,12 @@ def generate(seed, run, tier):
     if family == "bundled":
         return generate_bundled(crng, srng)
 
-    pool = weighted_choice(crng, [("ab", 30), ("abc", 25), ("abcd", 8), ("real", 12), ("idn", 12), ("edge", 8), ("digits", 5), ("suffixy", 6), ("wide", 5), ("deep", 5)])
+    pool = weighted_choice(crng, [("ab", 30), ("abc", 25), ("abcd", 8), ("real", 12), ("idn", 12), ("edge", 8), ("digits", 5), ("suffixy", 6), ("kinds", 7), ("wide", 5), ("deep", 5)])
     alphabet = POOLS[pool]
     if pool in ("real", "idn", "edge", "digits", "abcd", "suffixy") and crng.random() < 0.5:
         alphabet = alphabet[: crng.choice([3, 4])]
+    if pool == "kinds":
+        alphabet = crng.sample(alphabet, 3)
     depth = crng.choice([2, 3, 3])
     if pool == "wide":
         depth = 2
